@@ -27,6 +27,8 @@ use std::ops::Deref;
 use std::ops::DerefMut;
 use std::path::Path;
 use std::sync::Arc;
+use std::sync::atomic::AtomicBool;
+use std::sync::atomic::Ordering;
 use std::sync::mpsc::Receiver;
 use std::sync::mpsc::Sender;
 
@@ -34,6 +36,12 @@ pub struct Output {
     path: Arc<Path>,
     creator: FileCreator,
     config: OutputConfig,
+
+    /// Whether we've started creating, or have created, a file at `path`.
+    touched: AtomicBool,
+
+    /// Whether the output file was completely written.
+    completed: AtomicBool,
 }
 
 #[derive(Clone, Copy)]
@@ -140,6 +148,8 @@ impl Output {
                 should_write_trace: args.common().write_trace,
                 use_mmap: args.common().mmap_output_file,
             },
+            touched: AtomicBool::new(false),
+            completed: AtomicBool::new(false),
         }
     }
 
@@ -155,6 +165,7 @@ impl Output {
                 let path = self.path.clone();
 
                 let output_config = self.config;
+                self.touched.store(true, Ordering::Relaxed);
 
                 rayon::spawn(move || {
                     verbose_timing_phase!("Create output file");
@@ -211,6 +222,7 @@ impl Output {
                 wait_for_sized_output(sized_output_recv)?
             }
             FileCreator::Regular { file_size } => {
+                self.touched.store(true, Ordering::Relaxed);
                 delete_old_output(&self.path);
                 let file_size = file_size.context("set_size was never called")?;
                 self.create_file_non_lazily(file_size)?
@@ -239,9 +251,45 @@ impl Output {
         Ok(())
     }
 
+    /// Records that linking succeeded, so the output file should be kept when we're dropped.
+    pub(crate) fn mark_completed(&self) {
+        self.completed.store(true, Ordering::Relaxed);
+    }
+
     fn create_file_non_lazily(&self, file_size: u64) -> Result<SizedOutput> {
         timing_phase!("Create output file");
         SizedOutput::new(self.path.clone(), self.config, file_size)
+    }
+}
+
+impl Drop for Output {
+    /// If linking failed after we started creating the output file, remove it, so that we don't
+    /// leave a partially written (or zero-filled) file behind for a build system to mistake for a
+    /// fresh output.
+    fn drop(&mut self) {
+        if self.completed.load(Ordering::Relaxed) || !self.touched.load(Ordering::Relaxed) {
+            return;
+        }
+
+        // If file creation is happening in the background, wait for it so that the file doesn't
+        // appear after we've tried to remove it. If the file was already handed to the writer, the
+        // sender has been dropped and this returns immediately.
+        if let FileCreator::Background {
+            sized_output_recv, ..
+        } = &self.creator
+        {
+            let _ = sized_output_recv.recv();
+        }
+
+        remove_failed_output(&self.path);
+    }
+}
+
+/// Removes the output file of a failed link. Only regular files are removed, so that outputs like
+/// /dev/null are left alone.
+pub(crate) fn remove_failed_output(path: &Path) {
+    if std::fs::symlink_metadata(path).is_ok_and(|m| m.file_type().is_file()) {
+        let _ = std::fs::remove_file(path);
     }
 }
 
